@@ -2,29 +2,36 @@
 (***************************************************************************)
 (* C16: what redun hashes when it hashes a value (redun/value.py).         *)
 (*                                                                         *)
-(* TypeRegistry.get_hash(v) is sha(tag + pickle(v)).  pickle writes a set   *)
-(* or frozenset in ITERATION order, and the iteration order of a hash       *)
-(* table is a function of the interpreter's hash seed (str / bytes keys)    *)
-(* and of the insertion history (colliding keys).  That is exactly the      *)
-(* nondeterminism modelled here: an ORDERING of a value tree fixes, for     *)
-(* every set / frozenset node, the sequence in which its elements are       *)
-(* written.  Ser(o, top) is the serialisation of an ordered tree; the law   *)
+(* TypeRegistry.get_hash(v) is sha(tag + pickle(v)).  pickle writes a set  *)
+(* or frozenset in ITERATION order, and the iteration order of a hash      *)
+(* table is a function of the interpreter's hash seed (str / bytes keys)   *)
+(* and of the insertion history (colliding keys).  That is exactly the     *)
+(* nondeterminism modelled here: an ORDERING of a value tree fixes, for    *)
+(* every set / frozenset node, the sequence in which its elements are      *)
+(* written.  Ser(o, top) is the serialisation of an ordered tree; the law  *)
 (* is                                                                      *)
 (*        Ser is the same for all orderings of the same value.             *)
 (*                                                                         *)
-(* As built (value.py, class Set): only a `set` that IS the hashed value    *)
-(* (top = TRUE) is sorted before pickling; frozensets and sets below the    *)
-(* top level are pickled as they iterate.  Named deviations = position      *)
+(* As built (value.py, class Set): only a `set` that IS the hashed value   *)
+(* (top = TRUE) is sorted before pickling; frozensets and sets below the   *)
+(* top level are pickled as they iterate.  Named deviations = position     *)
 (* classes of the unstable nodes:                                          *)
-(*     "frozenset-toplevel"       the value itself is a frozenset           *)
-(*     "frozenset-nested"         a frozenset inside any container          *)
-(*     "set-nested-in-container"  a set inside any container                *)
+(*     "frozenset-toplevel"       the value itself is a frozenset          *)
+(*     "frozenset-nested"         a frozenset inside any container         *)
+(*     "set-nested-in-container"  a set inside any container               *)
 (*                                                                         *)
-(* Leaf sorts by id: 0..99 small non-negative ints (hash(i) = i, seed       *)
-(* independent), 100..199 str, 200.. other scalars.  A table of ints whose  *)
-(* slots (i mod table size) are pairwise distinct iterates in slot order    *)
-(* whatever the seed and the insertion order: such a node is STABLE and is  *)
-(* no deviation.  (CPython: 8 slots up to 4 elements, 32 up to 18.)         *)
+(* Two seams hash a value: TypeRegistry.get_hash(v) (argument hashing,     *)
+(* cache keys) and RedunBackendDb.record_value(v) (the hash a result or an  *)
+(* argument is STORED under: Value row, CallNode.value_hash,                *)
+(* Argument.value_hash, hence call hashes).  The contract makes them one    *)
+(* function of the value: the recorded hash IS the value hash, and the law  *)
+(* above holds for both.  ValueHash_Trace.tla judges both observations.     *)
+(*                                                                         *)
+(* Leaf sorts by id: 0..99 small non-negative ints (hash(i) = i, seed      *)
+(* independent), 100..199 str, 200.. other scalars.  A table of ints whose *)
+(* slots (i mod table size) are pairwise distinct iterates in slot order   *)
+(* whatever the seed and the insertion order: such a node is STABLE and is *)
+(* no deviation.  (CPython: 8 slots up to 4 elements, 32 up to 18.)        *)
 (***************************************************************************)
 EXTENDS Values
 
@@ -41,9 +48,9 @@ IntStable(X) ==
 Unstable(X) == Cardinality(X) >= 2 /\ ~IntStable(X)
 
 (***************************************************************************)
-(* sorted(): a total order exists among leaves of one sort and among        *)
-(* tuples of such leaves (lexicographic).  Frozensets are only partially    *)
-(* ordered (subset), so sorted() of frozensets depends on the input order.  *)
+(* sorted(): a total order exists among leaves of one sort and among       *)
+(* tuples of such leaves (lexicographic).  Frozensets are only partially   *)
+(* ordered (subset), so sorted() of frozensets depends on the input order. *)
 (***************************************************************************)
 SortKey(e) == IF e.k = "leaf" THEN <<e.t>> ELSE [i \in 1..Len(e.x) |-> e.x[i].t]
 FlatSort(e, P(_)) == (e.k = "leaf" /\ P(e)) \/ (e.k = "tuple" /\ \A i \in 1..Len(e.x) : P(e.x[i]))
@@ -67,7 +74,7 @@ HashWF(v, top) ==
   /\ v.k = "fset" => \A c \in v.x : HashWF(c, FALSE)
 
 (***************************************************************************)
-(* Orderings(v): all ordered trees of v (set / fset children as sequences). *)
+(* Orderings(v): all ordered trees of v (set / fset children as sequences).*)
 (***************************************************************************)
 RECURSIVE SeqProd(_)
 SeqProd(ss) == IF ss = <<>> THEN {<<>>}
